@@ -346,6 +346,17 @@ func FailTagged(rule string, tags map[string]string, format string, args ...inte
 func (s *Sim) fail(rule, msg, stack string, tags map[string]string) {
 	s.mu.Lock()
 	defer s.mu.Unlock()
+	if len(s.globalTags) > 0 {
+		// run-wide discriminators (e.g. "a session was lost") accompany every verdict
+		m := map[string]string{}
+		for k, v := range s.globalTags {
+			m[k] = v
+		}
+		for k, v := range tags {
+			m[k] = v
+		}
+		tags = m
+	}
 	gname := ""
 	if s.cur != nil {
 		gname = s.cur.String()
